@@ -31,7 +31,7 @@ def TyWF : Ty → Bool
   | .semverT _ rs => rs.all arOk               -- versions as `NewVersion3` makes them (and `semver.Min`)
   | .hash k v lo hi => (TyWF k && TyWF v) && ((minInt ≤ lo && lo ≤ maxInt) && (minInt ≤ hi && hi ≤ maxInt))
   | .like b _ => TyWF b
-  | .callable ts => ts.isNone                  -- `Callable[…]` with parameters is outside: known finding C07-callable-all-equal
+  | .callable h ts => !h || (TyWFL ts && decide ((ts.length : Int) ≤ maxInt))   -- the parameter Tuple: a Go slice length is an int
   | _ => true
 def TyWFL : List Ty → Bool
   | [] => true
@@ -111,7 +111,10 @@ theorem tyEq_eq_R : ∀ a b : Ty, tyEq a b = tyEqR a b
       cases b <;> simp only [tyEq, tyEqR]
       rename_i t' n'
       rw [tyEq_eq_R t t', beq_swap n n']
-  | .callable _, b => by cases b <;> simp [tyEq, tyEqR]
+  | .callable h ts, b => by
+      cases b <;> simp only [tyEq, tyEqR]
+      rename_i h' us
+      rw [tyEqL_eq_R ts us, beq_swap ts.length us.length, beq_swap h h']
   | .runtime rt n p, b => by cases b <;> simp [tyEq, tyEqR, beq_swap rt, beq_swap n, beq_swap p]
 theorem tyEqL_eq_R : ∀ ts us : List Ty, tyEqL ts us = tyEqRL ts us
   | [], _ => by simp [tyEqL, tyEqRL]
@@ -169,7 +172,21 @@ theorem tyEqR_swap : ∀ a b : Ty, tyEqR a b = tyEq b a
   | .like t n, b => by
       cases b <;> simp only [tyEq, tyEqR]
       rw [tyEqR_swap t _]
-  | .callable _, b => by cases b <;> simp [tyEq, tyEqR]
+  | .callable h ts, b => by
+      cases b <;> simp only [tyEq, tyEqR]
+      rename_i h' us
+      cases hh : (h' == h)
+      · simp
+      · have e : h' = h := by simpa using hh
+        subst e
+        cases h'
+        · simp
+        · simp only [Bool.true_and, Bool.not_true, Bool.false_or]
+          cases hl : (us.length == ts.length)
+          · simp
+          · simp only [Bool.true_and]
+            have hl' : us.length = ts.length := by simpa using hl
+            rw [tyEqRL_swap ts us hl'.symm]
   | .runtime rt n p, b => by cases b <;> simp [tyEq, tyEqR]
 theorem tyEqRL_swap : ∀ ts us : List Ty, ts.length = us.length → tyEqRL ts us = tyEqL us ts
   | [], us => fun h => by
@@ -274,7 +291,11 @@ theorem tyEq_refl : ∀ a : Ty, TyWF a = true → tyEq a a = true
       simp only [TyWF, Bool.and_eq_true] at h
       simp [tyEq, tyEq_refl k h.1.1, tyEq_refl v h.1.2]
   | .like t _, h => by simp only [TyWF] at h; simp [tyEq, tyEq_refl t h]
-  | .callable _, _ => by simp [tyEq]
+  | .callable hh ts, h => by
+      cases hh
+      · simp [tyEq]
+      · simp only [TyWF, Bool.not_true, Bool.false_or, Bool.and_eq_true] at h
+        simp [tyEq, tyEqL_refl ts h.1]
   | .runtime _ _ _, _ => by simp [tyEq]
 theorem tyEq_refl_all : ∀ ts : List Ty, TyWFL ts = true → ∀ v ∈ ts, tyEq v v = true
   | [], _ => by simp
@@ -401,9 +422,16 @@ theorem tyEq_trans : ∀ a b c : Ty, tyEq a b = true → tyEq b c = true → tyE
       cases b <;> (try (intro h; simp [tyEq] at h; done))
       cases c <;> simp [tyEq]
       intro h1 h2 h3 h4; exact ⟨h1.trans h3, tyEq_trans t _ _ h2 h4⟩
-  | .callable _, b, c => by
+  | .callable hh ts, b, c => by
       cases b <;> (try (intro h; simp [tyEq] at h; done))
       cases c <;> simp [tyEq]
+      intro e1 h1 e2 h2
+      subst e1; subst e2
+      refine ⟨rfl, ?_⟩
+      cases hh
+      · simp
+      · simp only [Bool.true_eq_false, false_or] at h1 h2 ⊢
+        exact ⟨h1.1.trans h2.1, tyEqL_trans ts _ _ h1.2 h2.2⟩
   | .runtime _ _ _, b, c => by
       cases b <;> (try (intro h; simp [tyEq] at h; done))
       cases c <;> simp [tyEq]
